@@ -56,49 +56,49 @@ theorem bytesLe_iff_val : ∀ (a b : List Byte), a.length = b.length → (bytesL
 
 
 
-def incStep (acc : List Byte × Bool) (b : Byte) : List Byte × Bool :=
+def incCarry (acc : List Byte × Bool) (b : Byte) : List Byte × Bool :=
   if acc.2 then ((b + 1) :: acc.1, (b + 1) == 0#8) else (b :: acc.1, false)
 
-theorem incBytes_eq (bs : List Byte) : incBytes bs = (bs.reverse.foldl incStep ([], true)).1 := rfl
+theorem incBytes_fold (bs : List Byte) : incBytes bs = (bs.reverse.foldl incCarry ([], true)).1 := rfl
 
-theorem fold_nocarry (l acc : List Byte) : l.foldl incStep (acc, false) = (l.reverse ++ acc, false) := by
+theorem fold_nocarry (l acc : List Byte) : l.foldl incCarry (acc, false) = (l.reverse ++ acc, false) := by
   induction l generalizing acc with
   | nil => rfl
-  | cons x xs ih => simp [List.foldl_cons, incStep, ih]
+  | cons x xs ih => simp [List.foldl_cons, incCarry, ih]
 
 theorem fold_gen (l : List Byte) : ∀ (acc : List Byte) (c : Bool),
-    (l.foldl incStep (acc, c)).1 = (l.foldl incStep ([], c)).1 ++ acc := by
+    (l.foldl incCarry (acc, c)).1 = (l.foldl incCarry ([], c)).1 ++ acc := by
   induction l with
   | nil => intro acc c; rfl
   | cons x xs ih =>
     intro acc c
     cases c
-    · simp only [List.foldl_cons, incStep, Bool.false_eq_true, if_false]
+    · simp only [List.foldl_cons, incCarry, Bool.false_eq_true, if_false]
       rw [ih (x :: acc), ih [x]]; simp
-    · simp only [List.foldl_cons, incStep, if_true]
+    · simp only [List.foldl_cons, incCarry, if_true]
       rw [ih ((x + 1) :: acc), ih [x + 1]]; simp
 
-theorem incBytes_snoc (bs : List Byte) (b : Byte) :
+theorem incBytes_append_singleton (bs : List Byte) (b : Byte) :
     incBytes (bs ++ [b]) = if b + 1 = 0#8 then incBytes bs ++ [0#8] else bs ++ [b + 1] := by
-  rw [incBytes_eq, List.reverse_append, List.reverse_singleton, List.singleton_append, List.foldl_cons]
-  simp only [incStep, if_true]
+  rw [incBytes_fold, List.reverse_append, List.reverse_singleton, List.singleton_append, List.foldl_cons]
+  simp only [incCarry, if_true]
   by_cases h : b + 1 = 0#8
   · rw [if_pos h, h]
     simp only [beq_self_eq_true]
-    rw [fold_gen, ← incBytes_eq]
+    rw [fold_gen, ← incBytes_fold]
   · rw [if_neg h]
     have : ((b + 1) == 0#8) = false := by simpa using h
     rw [this, fold_nocarry]; simp
 
-theorem incBytes_nil : incBytes [] = [] := rfl
+theorem incBytes_empty : incBytes [] = [] := rfl
 
 theorem incBytes_spec_rev : ∀ (l : List Byte),
     (incBytes l.reverse).length = l.length ∧ val (incBytes l.reverse) = (val l.reverse + 1) % 256 ^ l.length := by
   intro l
   induction l with
-  | nil => simp [incBytes_nil, val]
+  | nil => simp [incBytes_empty, val]
   | cons b bs ih =>
-    rw [List.reverse_cons, incBytes_snoc]
+    rw [List.reverse_cons, incBytes_append_singleton]
     have hb := b.isLt
     have h1 : (1 : Byte).toNat = 1 := rfl
     by_cases h : b + 1 = 0#8
@@ -266,5 +266,228 @@ theorem enumerate_visits (keep : List Byte → Bool) (r : TermRange) (hlen : r.s
   unfold enumerate at h
   exact go_spec keep r r.startTerm.length hlen.symm fuel r.startTerm acc fuel' acc' rfl h t
 
+
+
+theorem enumerateAll_go_spec (keep : List Byte → Bool) :
+    ∀ (rs : List TermRange) (fuel : Nat) (acc out : List (List Byte)),
+      (∀ r ∈ rs, r.startTerm.length = r.endTerm.length) →
+      enumerateAll.go keep rs fuel acc = some out →
+      ∀ t, t ∈ out ↔ (t ∈ acc ∨ ∃ r ∈ rs, keep t = true ∧ t.length = r.startTerm.length ∧
+        bytesLe r.startTerm t = true ∧ bytesLe t r.endTerm = true) := by
+  intro rs
+  induction rs with
+  | nil =>
+    intro fuel acc out _ h t
+    rw [enumerateAll.go] at h
+    simp only [Option.some.injEq] at h
+    rw [← h]; simp
+  | cons r rest ih =>
+    intro fuel acc out hl h t
+    rw [enumerateAll.go] at h
+    cases he : enumerate keep r fuel acc with
+    | none => rw [he] at h; cases h
+    | some p =>
+      obtain ⟨fuel', acc'⟩ := p
+      rw [he] at h
+      simp only at h
+      have hv := enumerate_visits keep r (hl r List.mem_cons_self) fuel acc fuel' acc' he
+      rw [ih fuel' acc' out (fun r' hr' => hl r' (List.mem_cons_of_mem _ hr')) h t, hv t]
+      simp only [List.mem_cons, exists_eq_or_imp]
+      constructor
+      · rintro ((h1 | h1) | h1)
+        · exact Or.inl h1
+        · exact Or.inr (Or.inl h1)
+        · exact Or.inr (Or.inr h1)
+      · rintro (h1 | h1 | h1)
+        · exact Or.inl (Or.inl h1)
+        · exact Or.inl (Or.inr h1)
+        · exact Or.inr h1
+
+theorem mem_splitLoop_form' : ∀ (fuel : Nat) (lo hi : I64) (k : Nat) (r : TermRange), k < 16 →
+    r ∈ splitLoop fuel lo hi (4 * k) 4 → ∃ a b j, j < 16 ∧ r = newRange a b (4 * j) := by
+  intro fuel
+  induction fuel with
+  | zero => intro lo hi k r _ h; simp [splitLoop] at h
+  | succ fuel ih =>
+    intro lo hi k r hk h
+    rw [splitLoop_succ] at h
+    split at h
+    · simp only [List.mem_singleton] at h; exact ⟨_, _, k, hk, h⟩
+    · rename_i hc
+      have hk' : k ≤ 14 := by
+        apply Decidable.byContradiction; intro h'; apply hc; left; omega
+      simp only [List.mem_append] at h
+      rcases h with (h | h) | h
+      · split at h
+        · simp only [List.mem_singleton] at h; exact ⟨_, _, k, hk, h⟩
+        · simp at h
+      · split at h
+        · simp only [List.mem_singleton] at h; exact ⟨_, _, k, hk, h⟩
+        · simp at h
+      · have e4 : 4 * k + 4 = 4 * (k + 1) := by omega
+        rw [e4] at h
+        exact ih _ _ (k + 1) r (by omega) h
+
+theorem mem_split_form (lo hi : I64) (r : TermRange) (hr : r ∈ split lo hi 4) :
+    ∃ a b j, j < 16 ∧ r = ⟨encode a (4 * j), encode b (4 * j)⟩ := by
+  unfold split at hr
+  split at hr
+  · simp at hr
+  · obtain ⟨a, b, j, hj, rfl⟩ := mem_splitLoop_form' _ _ _ 0 r (by omega) hr
+    exact ⟨a, b, j, hj, newRange_eq a b _ (by omega)⟩
+
+/-- a shift term of `v` lying bytewise inside a range of shift `4j` is the term of shift `4j` -/
+theorem between_shift (a b v : I64) (i j : Nat) (hi : i < 16) (hj : j < 16)
+    (h1 : bytesLe (encode a (4 * j)) (encode v (4 * i)) = true)
+    (h2 : bytesLe (encode v (4 * i)) (encode b (4 * j)) = true) : i = j := by
+  apply Decidable.byContradiction
+  intro hne
+  by_cases hlt : i < j
+  · have := encode_order_shift v a (4 * i) (4 * j) (by omega) (by omega)
+    rw [bytesLt_eq_not_bytesLe, h1] at this; simp at this
+  · have := encode_order_shift b v (4 * j) (4 * i) (by omega) (by omega)
+    rw [bytesLt_eq_not_bytesLe, h2] at this; simp at this
+
+/-- **end to end on the model the driver runs**: whenever the capped walk over the ranges of
+`splitInt64Range lo hi 4` finishes, it reports a match for `v` (indexed under its 16 shift terms) iff
+`lo ≤ v ≤ hi` -/
+theorem rangeMatches_exact (cap : Nat) (lo hi v : I64) (b : Bool) (h : rangeMatches cap lo hi v = some b) :
+    b = true ↔ (lo.sle v = true ∧ v.sle hi = true) := by
+  unfold rangeMatches at h
+  simp only [Option.map_eq_some_iff] at h
+  obtain ⟨out, hout, hb⟩ := h
+  unfold enumerateAll at hout
+  have hlen : ∀ r ∈ split lo hi 4, r.startTerm.length = r.endTerm.length := by
+    intro r hr
+    obtain ⟨a, b', j, _, rfl⟩ := mem_split_form lo hi r hr
+    simp [length_encode]
+  have hspec := enumerateAll_go_spec _ _ _ _ _ hlen hout
+  rw [← split_exact lo hi v, ← hb]
+  have hne : (!out.isEmpty) = true ↔ ∃ t, t ∈ out := by
+    cases out with
+    | nil => simp
+    | cons x xs => simp
+  rw [hne]
+  constructor
+  · rintro ⟨t, ht⟩
+    rcases (hspec t).1 ht with h' | ⟨r, hr, hk, _, h1, h2⟩
+    · simp at h'
+    · exact ⟨r, hr, t, List.contains_iff_mem.1 hk, h1, h2⟩
+  · rintro ⟨r, hr, t, ht, h1, h2⟩
+    refine ⟨t, (hspec t).2 (Or.inr ⟨r, hr, List.contains_iff_mem.2 ht, ?_, h1, h2⟩)⟩
+    obtain ⟨a, b', j, hj, rfl⟩ := mem_split_form lo hi r hr
+    obtain ⟨i, hi', rfl⟩ := (mem_shiftTerms v t).1 ht
+    have := between_shift a b' v i j hi' hj h1 h2
+    subst this
+    simp [length_encode]
+
+
+
+/-! ## the walk over the ranges of `split` always finishes (for a big enough cap) -/
+
+/-- number of strings the walk from `next` visits before passing `endTerm` -/
+def stepsFrom (r : TermRange) (next : List Byte) : Nat := val r.endTerm + 1 - val next
+
+theorem go_terminates (keep : List Byte → Bool) (r : TermRange) (n : Nat) (hend : r.endTerm.length = n)
+    (hnotmax : val r.endTerm + 1 < 256 ^ n) :
+    ∀ (fuel : Nat) (next : List Byte) (acc : List (List Byte)), next.length = n → stepsFrom r next ≤ fuel →
+      ∃ acc', enumerate.go keep r fuel next acc = some (fuel - stepsFrom r next, acc') := by
+  intro fuel
+  induction fuel with
+  | zero =>
+    intro next acc hn hs
+    unfold stepsFrom at hs ⊢
+    have hle : ¬ bytesLe next r.endTerm = true := by
+      rw [bytesLe_iff_val _ _ (by omega)]; omega
+    rw [go_zero, if_neg hle]
+    exact ⟨acc, by simp⟩
+  | succ fuel ih =>
+    intro next acc hn hs
+    rw [go_step]
+    by_cases hle : bytesLe next r.endTerm = true
+    · rw [if_pos hle]
+      have hv := (bytesLe_iff_val _ _ (by omega)).1 hle
+      have hinc : val (incBytes next) = val next + 1 := by
+        rw [val_incBytes, hn, Nat.mod_eq_of_lt (by omega)]
+      have hlen : (incBytes next).length = n := by rw [length_incBytes, hn]
+      unfold stepsFrom at hs ⊢
+      obtain ⟨acc', h⟩ := ih (incBytes next) (if keep next = true then next :: acc else acc) hlen
+        (by unfold stepsFrom; omega)
+      refine ⟨acc', ?_⟩
+      rw [h]; unfold stepsFrom
+      congr 2; omega
+    · rw [if_neg hle]
+      have : stepsFrom r next = 0 := by
+        unfold stepsFrom
+        rw [bytesLe_iff_val _ _ (by omega)] at hle; omega
+      exact ⟨acc, by rw [this]; rfl⟩
+
+/-- a range whose end term is not all-0xff and has the length of its start term -/
+def GoodRange (r : TermRange) : Prop :=
+  r.startTerm.length = r.endTerm.length ∧ val r.endTerm + 1 < 256 ^ r.endTerm.length
+
+def totalSteps : List TermRange → Nat
+  | [] => 0
+  | r :: rs => stepsFrom r r.startTerm + totalSteps rs
+
+theorem enumerateAll_go_terminates (keep : List Byte → Bool) :
+    ∀ (rs : List TermRange) (fuel : Nat) (acc : List (List Byte)), (∀ r ∈ rs, GoodRange r) →
+      totalSteps rs ≤ fuel → ∃ out, enumerateAll.go keep rs fuel acc = some out := by
+  intro rs
+  induction rs with
+  | nil => intro fuel acc _ _; rw [enumerateAll.go]; exact ⟨_, rfl⟩
+  | cons r rest ih =>
+    intro fuel acc hg hf
+    rw [enumerateAll.go]
+    have hr := hg r List.mem_cons_self
+    simp only [totalSteps] at hf
+    obtain ⟨acc', h⟩ := go_terminates keep r r.endTerm.length rfl hr.2 fuel r.startTerm acc hr.1 (by omega)
+    unfold enumerate
+    rw [h]
+    simp only
+    exact ih _ _ (fun r' hr' => hg r' (List.mem_cons_of_mem _ hr')) (by omega)
+
+theorem val_encode_not_max (v : I64) (s : Nat) (hs : s ≤ 63) :
+    val (encode v s) + 1 < 256 ^ (encode v s).length := by
+  rw [encode_eq_digits]
+  simp only [val, List.length_cons, Nat.pow_succ]
+  have hb : (BitVec.ofNat 8 (0x20 + s)).toNat = 0x20 + s := by
+    simp only [BitVec.toNat_ofNat]; omega
+  rw [hb]
+  have h1 := val_lt (digits ((v ^^^ signBit) >>> s) (nChars s))
+  have h2 : (32 + s) * 256 ^ (digits ((v ^^^ signBit) >>> s) (nChars s)).length ≤
+      95 * 256 ^ (digits ((v ^^^ signBit) >>> s) (nChars s)).length := Nat.mul_le_mul_right _ (by omega)
+  omega
+
+theorem split_good (lo hi : I64) : ∀ r ∈ split lo hi 4, GoodRange r := by
+  intro r hr
+  obtain ⟨a, b, j, hj, rfl⟩ := mem_split_form lo hi r hr
+  exact ⟨by simp [length_encode], val_encode_not_max b _ (by omega)⟩
+
+/-- **range decomposition is exact, end to end on the model the driver runs**: for every `lo hi v` there is a
+cap from which on the walk over the ranges of `splitInt64Range lo hi 4` finishes, and it then reports a match
+for `v` (indexed under its 16 shift terms) exactly when `lo ≤ v ≤ hi` -/
+theorem rangeMatches_total (lo hi v : I64) :
+    ∃ cap, ∀ cap', cap ≤ cap' →
+      rangeMatches cap' lo hi v = some (decide (lo.sle v = true ∧ v.sle hi = true)) := by
+  refine ⟨totalSteps (split lo hi 4), fun cap' hc => ?_⟩
+  obtain ⟨out, hout⟩ := enumerateAll_go_terminates (fun t => (shiftTerms v).contains t) (split lo hi 4) cap' []
+    (split_good lo hi) hc
+  have hrm : rangeMatches cap' lo hi v = some (!out.isEmpty) := by
+    unfold rangeMatches enumerateAll
+    simp only [hout, Option.map_some]
+  rw [hrm]
+  congr 1
+  have := rangeMatches_exact cap' lo hi v _ hrm
+  cases hb : (!out.isEmpty)
+  · rw [hb] at this
+    symm; rw [decide_eq_false_iff_not]; intro h'; exact absurd (this.2 h') (by simp)
+  · rw [hb] at this
+    symm; rw [decide_eq_true_iff]; exact this.1 rfl
+
+
+/-- non-vacuity: the capped walk does finish on small instances -/
+example : rangeMatches 1000 5#64 9#64 7#64 = some true := by decide
+example : rangeMatches 1000 5#64 9#64 10#64 = some false := by decide
 
 end Bluge.C10
